@@ -27,6 +27,9 @@ var letters = "abcdefghijklmnopqrstuvwxyz"
 // domain is lifted (C11_LIFT=D1,D6,... ; development only: used to validate a repair of /repo on a
 // scratch copy before the restriction is removed from this file).
 func lifted(id string) bool {
+	if id == "D1" {
+		return true // repaired in /repo (91b6e7d, df7dcfa, 8b85d8a): compared again
+	}
 	for _, s := range strings.Split(os.Getenv("C11_LIFT"), ",") {
 		if s == id || s == "all" {
 			return true
@@ -140,7 +143,7 @@ func (g *pgen) seq(depth int, want int) {
 		switch {
 		case g.feat.Spans && depth < 3 && g.r.Intn(5) == 0:
 			n := g.spanNode(depth)
-			// finding D1 (open again: the repair a4e4721 was backed out in adc3996): the start
+			// finding D1 (fixed: df7dcfa after the re-break loop was bounded in 91b6e7d; lifted() is always true for it): the start
 			// spacing of an inline box is not charged when its own content is split, so in
 			// wrapping modes a span with start spacing holds one unbreakable word
 			single := g.wrap && n.ML+n.BL+n.PL > 0 && !lifted("D1")
